@@ -768,88 +768,91 @@ class SchedulingSolver(BaseModelWithJson):
                 else self._objective._bounds[1]
             )
 
-        while True:  # infinite loop, break if z3.unsat or max_num_iter
-            num_iter += 1
-            if max_iter is not None and num_iter > max_iter:
-                warnings.warn(
-                    f"""maximum number of iteration {max_iter} exceeded, stop computation but there might be a
-                    better solution. Increase the max_iter parameter and rerun the incremental optimizer."""
-                )
-                break
-
-            incremental_solver_is_computing_a_better_value = (
-                current_variable_value is not None
-            )
-            is_sat, sat_computation_time = self.check_sat(
-                incremental_solver_is_computing_a_better_value
-            )
-
-            if is_sat == z3.unsat and current_variable_value is not None:
-                print(f"\tFound optimum {current_variable_value}. Stopping iteration.")
-                break
-            if is_sat == z3.unsat:
-                print("\tNo solution found. Stopping iteration.")
-                break
-            if is_sat == z3.unknown:
-                break
-            # at this stage, is_sat should be sat
-            solution = self._solver.model()
-            current_variable_value = solution[variable].as_long()
-            # if requested, save intermediate_level
-            if self.save_intermediate_states:
-                sol = self.build_solution(solution)
-                if self.save_intermediate_states_path is None:
-                    self.save_intermediate_states_path = os.getcwd()
-                fn = os.path.join(
-                    self.save_intermediate_states_path,
-                    f"{self.problem.name}_IntermediateSolution_Value_{current_variable_value}.json",
-                )
-                sol.to_json_file(fn)
-            total_time += sat_computation_time
-            print(
-                f"\tFound value: {current_variable_value} elapsed time:{total_time:.3f}s"
-            )
-            if self.max_time != "inf" and total_time > self.max_time:
-                print("Max time exceeded. Stop incremental solver.")
-                break
-
-            if bound is not None and current_variable_value == bound:
-                print(
-                    f"\tFound optimum {current_variable_value}. Stop incremental solver."
-                )
-                break
-
-            # prevent the solver to start a new round if we expect it to be
-            # very long. The idea is the following: store the last 3 computation
-            # times, compute and extrapolate a quadratic using a quadratic function.
-            # Break the loop if ever the expected
-            # time is too big.
-            if len(three_last_times) < 3:
-                three_last_times.append(total_time)
-            else:
-                three_last_times.pop(0)
-                three_last_times.append(total_time)
-                # Compute the expected value
-                a, b, c = calc_parabola_from_three_points([0, 1, 2], three_last_times)
-                expected_next_time = a * 9 + 3 * b + c
-                if self.max_time != "inf" and expected_next_time > self.max_time:
-                    print(
-                        "Max time expected on the next iteration. Stop incremental solver."
+        try:
+            while True:  # infinite loop, break if z3.unsat or max_num_iter
+                num_iter += 1
+                if max_iter is not None and num_iter > max_iter:
+                    warnings.warn(
+                        f"""maximum number of iteration {max_iter} exceeded, stop computation but there might be a
+                        better solution. Increase the max_iter parameter and rerun the incremental optimizer."""
                     )
                     break
-            self._solver.push()
-            num_pushes += 1
-            if kind == "min":
-                self.append_z3_assertion(variable < current_variable_value)
-                print(f"\tChecking better value < {current_variable_value}")
-            else:
-                self.append_z3_assertion(variable > current_variable_value)
-                print(f"\tChecking better value > {current_variable_value}")
 
-        # remove the "better than the incumbent" bounds, otherwise they stay in the solver
-        # and any later call (solve, find_another_solution) is reported unsatisfiable
-        for _ in range(num_pushes):
-            self._solver.pop()
+                incremental_solver_is_computing_a_better_value = (
+                    current_variable_value is not None
+                )
+                is_sat, sat_computation_time = self.check_sat(
+                    incremental_solver_is_computing_a_better_value
+                )
+
+                if is_sat == z3.unsat and current_variable_value is not None:
+                    print(f"\tFound optimum {current_variable_value}. Stopping iteration.")
+                    break
+                if is_sat == z3.unsat:
+                    print("\tNo solution found. Stopping iteration.")
+                    break
+                if is_sat == z3.unknown:
+                    break
+                # at this stage, is_sat should be sat
+                solution = self._solver.model()
+                current_variable_value = solution[variable].as_long()
+                # if requested, save intermediate_level
+                if self.save_intermediate_states:
+                    sol = self.build_solution(solution)
+                    if self.save_intermediate_states_path is None:
+                        self.save_intermediate_states_path = os.getcwd()
+                    fn = os.path.join(
+                        self.save_intermediate_states_path,
+                        f"{self.problem.name}_IntermediateSolution_Value_{current_variable_value}.json",
+                    )
+                    sol.to_json_file(fn)
+                total_time += sat_computation_time
+                print(
+                    f"\tFound value: {current_variable_value} elapsed time:{total_time:.3f}s"
+                )
+                if self.max_time != "inf" and total_time > self.max_time:
+                    print("Max time exceeded. Stop incremental solver.")
+                    break
+
+                if bound is not None and current_variable_value == bound:
+                    print(
+                        f"\tFound optimum {current_variable_value}. Stop incremental solver."
+                    )
+                    break
+
+                # prevent the solver to start a new round if we expect it to be
+                # very long. The idea is the following: store the last 3 computation
+                # times, compute and extrapolate a quadratic using a quadratic function.
+                # Break the loop if ever the expected
+                # time is too big.
+                if len(three_last_times) < 3:
+                    three_last_times.append(total_time)
+                else:
+                    three_last_times.pop(0)
+                    three_last_times.append(total_time)
+                    # Compute the expected value
+                    a, b, c = calc_parabola_from_three_points([0, 1, 2], three_last_times)
+                    expected_next_time = a * 9 + 3 * b + c
+                    if self.max_time != "inf" and expected_next_time > self.max_time:
+                        print(
+                            "Max time expected on the next iteration. Stop incremental solver."
+                        )
+                        break
+                self._solver.push()
+                num_pushes += 1
+                if kind == "min":
+                    self.append_z3_assertion(variable < current_variable_value)
+                    print(f"\tChecking better value < {current_variable_value}")
+                else:
+                    self.append_z3_assertion(variable > current_variable_value)
+                    print(f"\tChecking better value > {current_variable_value}")
+        finally:
+            # remove the "better than the incumbent" bounds, otherwise they stay in the
+            # solver and any later call (solve, find_another_solution) is reported
+            # unsatisfiable. Done in a finally clause: an exception raised inside the loop
+            # (e.g. a disk error while saving an intermediate state) must not leave them either.
+            for _ in range(num_pushes):
+                self._solver.pop()
 
         print(f"\ttotal number of iterations: {num_iter}")
         if current_variable_value is not None:
